@@ -35,7 +35,7 @@ func checkC09(e *RunEnv) *CheckResult {
 			{"everything-unstaged", append(append([]Step{}, seed1...), Run("rm", "d", "ad", "d.c", "a(b", "g", "d0", "big"))},
 			// a committed directory replaced by a file of the same name, and staged
 			{"dir-becomes-file", append(append([]Step{}, seedS0()...), Write("d/x/y", v1("d/x/y")), Write("g", v1("g")), Run("add", "d", "g"), Run("commit", "-m", "c1"), Write("d/x", "now a file\n"), Run("add", "d/x"))}},
-		Depth: e.pick(3, 4),
+		Depth: e.depth(3, 4),
 		Steps: func(n *Node) []Step {
 			a := n.Abs()
 			var steps []Step
